@@ -35,7 +35,7 @@ class Prop(common.PropertyCheck):
                    'cont': rng.choice(['array', 'array', 'sample']),
                    'bins': rng.choice(['count', 'edges', 'mixed', 'sample_linear', 'sample_log', 'sample_logicle', 'count2']),
                    'f': rng.choice(['0', '1', 'k/n', 'rand', 'rand', 'default']),
-                   'sigma': rng.choice(['scalar', 'scalar', 'pair', 'small']), 'seed': rng.randrange(1 << 30)}
+                   'sigma': rng.choice(['scalar', 'scalar', 'pair', 'small', 'pair_wide']), 'nan': rng.random() < 0.3, 'seed': rng.randrange(1 << 30)}
         for what in ('f<0', 'f>1', 'f<0 tiny', 'f>1 tiny', 'f<0 all outside', 'one_channel', 'three_channels', 'three_channels_two_distinct', 'four_channels_two_distinct', 'one_event'):
             yield {'k': 'bad', 'what': what}
 
@@ -85,6 +85,13 @@ class Prop(common.PropertyCheck):
             xy[:k, 0] = [xe[-1], xe[-1] * (1 + 2e-7), np.nextafter(xe[-1], np.inf), xe[0], np.nextafter(xe[0], -np.inf), xe[1]][:k]
             if cont != 'sample':
                 data = xy
+        if case.get('nan') and bins_kind == 'edges' and cont != 'sample' and n >= 3:
+            # events without a value in one of the gated channels: they lie in no bin
+            xy = np.array(xy, dtype=float)
+            k = max(1, n // 12)
+            xy[r.choice(n, size=k, replace=False), r.randint(0, 2)] = np.nan
+            xy[r.randint(0, n), :] = np.nan
+            data = xy
         scale = {'sample_linear': 'linear', 'sample_log': 'log', 'sample_logicle': 'logicle'}.get(bins_kind, 'logicle')
         fk = case['f']
         if fk == '0':
@@ -98,8 +105,12 @@ class Prop(common.PropertyCheck):
         else:
             f = float(r.uniform(0, 1))
         sk = case['sigma']
-        sigma = float(r.choice([1.0, 2.5, 10.0])) if sk == 'scalar' else (float(r.choice([0.5, 0.7])) if sk == 'small' else
-                                                                           (float(r.choice([4.0, 3.0, 0.5])), float(r.choice([0.5, 0.0001, 2.0]))))
+        if sk == 'pair_wide':
+            # very unequal per-axis widths, the larger one beyond the grid size / 6
+            sigma = (1.0, float(r.choice([8.0, 9.0, 12.0]))) if r.rand() < 0.5 else (float(r.choice([8.0, 9.0, 12.0])), 1.0)
+        else:
+            sigma = float(r.choice([1.0, 2.5, 10.0])) if sk == 'scalar' else (float(r.choice([0.5, 0.7])) if sk == 'small' else
+                                                                               (float(r.choice([4.0, 3.0, 0.5])), float(r.choice([0.5, 0.0001, 2.0]))))
         return data, xy, bins, scale, f, sigma
 
     def gate(self, data, bins, scale, f, sigma, bin_mask=None):
